@@ -1005,7 +1005,7 @@ def run_boundary(ctx: Ctx, sub: SubCheck, items, gen):
 # ------------------------------------------------------------------------------------------------------ drivers
 
 
-BUDGET = {"RRS": (240, 12000), "LP": (960, 72000), "TMP": (320, 30000), "RCP": (200, 18000)}  # Hypothesis cases per opcode (quick, thorough)
+BUDGET = {"RRS": (240, 16000), "LP": (960, 80000), "TMP": (320, 32000), "RCP": (200, 20000)}  # Hypothesis cases per opcode (quick, thorough)
 
 
 def make_driver(proto: str):
@@ -1032,7 +1032,7 @@ def drv_transport(ctx: Ctx, sub: SubCheck):
     run_boundary(ctx, sub, ["hrnp+hstrp"], lambda rng, E, item: boundary_cases_transport(rng))
 
     def work(i, t: Tally):
-        ctx.hypothesis(sub.name, transport, oracle_transport, ctx.pick(150, 9000), tally=t, shard=i, record=record_transport)
+        ctx.hypothesis(sub.name, transport, oracle_transport, ctx.pick(150, 10000), tally=t, shard=i, record=record_transport)
 
     ctx.shards(work, list(range(8)))
 
